@@ -1062,6 +1062,10 @@ func (r *Runtime) typedArrayProto_set(call FunctionCall) Value {
 				panic(r.newError(r.getRangeError(), "Source is too large"))
 			}
 			checkTypedArrayMixBigInt(src, ta)
+			if srcLen == 0 {
+				// nothing to copy; the element addresses computed below do not exist for an empty view at the end of its buffer
+				return _undefined
+			}
 			if src.defaultCtor == ta.defaultCtor {
 				copy(ta.viewedArrayBuf.data[(ta.offset+targetOffset)*ta.elemSize:],
 					src.viewedArrayBuf.data[src.offset*src.elemSize:(src.offset+srcLen)*src.elemSize])
